@@ -254,15 +254,22 @@ class Folder:
                     self.env[st.target.id] = cur - rhs
                 else:
                     raise Unfoldable(norm(st))
-            elif isinstance(st, ast.Assign) and len(st.targets) == 1 and isinstance(st.targets[0], ast.Subscript) and isinstance(st.targets[0].value, ast.Name):
-                # TABLE[key] = value at definition time
-                nm = st.targets[0].value.id
-                cur = self.lookup(nm)
-                if not isinstance(cur, dict):
-                    raise Unfoldable(norm(st))
-                new = dict(cur)
-                new[self.ev(st.targets[0].slice)] = self.ev(st.value)
-                self.env[nm] = new
+            elif isinstance(st, ast.Assign) and all(isinstance(t, ast.Subscript) and isinstance(t.value, ast.Name) for t in st.targets):
+                # TABLE[key] = value (also chained: A[k1] = B[k2] = value) at definition time
+                val = self.ev(st.value)
+                for t in st.targets:
+                    nm = t.value.id
+                    cur = self.lookup(nm)
+                    if not isinstance(cur, dict):
+                        raise Unfoldable(norm(st))
+                    new = dict(cur)
+                    new[self.ev(t.slice)] = val
+                    self.env[nm] = new
+            elif isinstance(st, ast.Assign) and any(isinstance(t, (ast.Subscript, ast.Attribute)) for t in st.targets):
+                # a store this folder does not interpret: what it may change is unknown from here on
+                for nm in _mutated_names(st):
+                    self.failed[nm] = f"changed by `{short(st, 40)}` at definition time"
+                    self.env.pop(nm, None)
             elif isinstance(st, ast.For) and not st.orelse:
                 # a definition-time loop over a foldable iterable
                 try:
